@@ -42,15 +42,24 @@ type scriptConn struct {
 	wcalls   int
 	pulled   int // bytes handed out by Read
 	waiting  bool // a Read is blocked with every scripted segment handed out
+	hold     int  // index of the first event that is held back until unhold() (-1: none)
 	coalesce bool // deliver the last bytes before a terminal event together with its error: (n > 0, err)
 	laddr    net.Addr
 	raddr    net.Addr
 }
 
 func newScriptConn(evs []rEv, laddr, raddr net.Addr) *scriptConn {
-	c := &scriptConn{evs: evs, laddr: laddr, raddr: raddr}
+	c := &scriptConn{evs: evs, laddr: laddr, raddr: raddr, hold: -1}
 	c.cond = sync.NewCond(&c.mu)
 	return c
+}
+
+// unhold lets the events from index `hold` on be delivered (the client resumes sending after a pause).
+func (c *scriptConn) unhold() {
+	c.mu.Lock()
+	c.hold = -1
+	c.mu.Unlock()
+	c.cond.Broadcast()
 }
 
 func (c *scriptConn) release() {
@@ -77,7 +86,7 @@ func (c *scriptConn) Read(p []byte) (int, error) {
 			c.pos++
 			c.off = 0
 		}
-		if c.pos < len(c.evs) {
+		if c.pos < len(c.evs) && !(c.hold >= 0 && c.pos >= c.hold) {
 			ev := c.evs[c.pos]
 			switch ev.kind {
 			case 0:
